@@ -625,7 +625,12 @@ def _put_one_ImportFrom_level(
             ln, col = next_find(lines, ln, col, end_ln, end_col, '.')  # must be there
             col += 1
 
-        self._put_src('.' * value, start_ln, start_col, ln, col, False)
+        src = '.' * value
+
+        if not value and start_col and not lines[start_ln][start_col - 1].isspace():  # removing dots which follow 'from' directly, 'from.mod' -> 'from mod'
+            src = ' '
+
+        self._put_src(src, start_ln, start_col, ln, col, False)
 
         ast.level = value
 
